@@ -1,6 +1,9 @@
-//! Hand-built minimal programs for the windows named in the properties; every scheduler decision
-//! of a template is enumerated by re-execution.
+//! Hand-built minimal programs for the windows named in the properties. Every scheduler decision
+//! of a template (advance the collector to its next instrumentation point, or let the program
+//! continue) is enumerated by re-execution; the threads are fresh for every execution, so the
+//! order in which the collector drains the queues is the order of the thread numbers used.
 
+use crate::exec::YIELD_DRAIN;
 use crate::gen::*;
 use crate::ops::*;
 use crate::sched::*;
@@ -8,15 +11,295 @@ use crate::sched::*;
 pub struct Template {
     pub name: &'static str,
     pub build: Box<dyn Fn() -> Program>,
+    pub mode: SchedMode,
     pub opts: RunOpts,
     pub budget: usize,
 }
 
-pub fn all(_prop: &str, _cancelable: bool) -> Vec<Template> {
-    vec![]
+/// Small builder over `Program::push` with fresh labels.
+pub struct B {
+    pub p: Program,
 }
 
-#[allow(dead_code)]
-fn unused(_: Op) {
-    let _ = new_span_label();
+impl B {
+    pub fn new(nthreads: usize, cancelable: bool) -> B {
+        set_str_mode(0);
+        B { p: Program::new(0, nthreads, cancelable, 0, new_local_label() + 900_000_000) }
+    }
+    pub fn root(&mut self, t: usize) -> u32 {
+        self.root_s(t, true)
+    }
+    pub fn root_s(&mut self, t: usize, sampled: bool) -> u32 {
+        let l = new_span_label();
+        let tid = ((l as u128) << 64) | 0xA5A5_0000_0000_0000_0000u128 | l as u128;
+        self.p.push(t, Op::Root { l, trace_id: tid, parent: 0x7000_0000 + l as u64, sampled, np: 0, k0: 0 });
+        l
+    }
+    pub fn child(&mut self, t: usize, parent: u32) -> u32 {
+        let l = new_span_label();
+        self.p.push(t, Op::Child { l, parents: vec![parent], single: true, np: 0, k0: 0 });
+        l
+    }
+    pub fn child_multi(&mut self, t: usize, parents: &[u32]) -> u32 {
+        let l = new_span_label();
+        self.p.push(t, Op::Child { l, parents: parents.to_vec(), single: false, np: 0, k0: 0 });
+        l
+    }
+    pub fn finish(&mut self, t: usize, l: u32) {
+        self.p.push(t, Op::Finish { span: l });
+    }
+    pub fn cancel(&mut self, t: usize, l: u32) {
+        self.p.push(t, Op::Cancel { span: l });
+    }
+    pub fn exit(&mut self, t: usize) {
+        self.p.push(t, Op::Exit);
+    }
+    pub fn guard(&mut self, t: usize, l: u32) {
+        self.p.push(t, Op::Guard { span: l });
+    }
+    pub fn pop(&mut self, t: usize) {
+        self.p.push(t, Op::Pop);
+    }
+    pub fn lenter(&mut self, t: usize) -> u32 {
+        let l = new_local_label();
+        self.p.push(t, Op::LEnter { l, np: 0, k0: 0 });
+        l
+    }
+    pub fn add_props(&mut self, t: usize, span: u32) {
+        self.p.push(t, Op::AddProps { span, n: 2, k0: new_keys(2) });
+    }
+    pub fn add_event(&mut self, t: usize, span: u32) {
+        self.p.push(t, Op::AddEvent { span, e: new_event(), np: 1, k0: new_keys(1) });
+    }
+    pub fn ladd_props(&mut self, t: usize) {
+        self.p.push(t, Op::LAddProps { n: 1, k0: new_keys(1) });
+    }
+    pub fn ladd_event(&mut self, t: usize) {
+        self.p.push(t, Op::LAddEvent { e: new_event(), np: 0, k0: 0 });
+    }
+    pub fn fill(&mut self, t: usize, span: u32, n: u32) {
+        self.p.push(t, Op::Fill { span, n });
+    }
+    pub fn op(&mut self, t: usize, op: Op) {
+        self.p.push(t, op);
+    }
+    pub fn done(self) -> Program {
+        self.p
+    }
+}
+
+fn stepped(max_cycles: usize, park: bool) -> RunOpts {
+    RunOpts {
+        max_cycles,
+        max_steps: 200,
+        park_in_stepped: park,
+        no_flush: true,
+        cyield: YIELD_DRAIN,
+        park_replay: false,
+        fresh_threads: true,
+    }
+}
+
+fn tpl(name: &'static str, opts: RunOpts, budget: usize, f: impl Fn() -> Program + 'static) -> Template {
+    let mode = if opts.cyield == PLACED { SchedMode::Placed } else { SchedMode::Stepped };
+    Template { name, build: Box::new(f), mode, opts, budget }
+}
+
+/// marker value of `cyield` for templates enumerated with whole cycles at every operation / send
+const PLACED: u64 = u64::MAX - 1;
+
+/// whole cycles (or none) before every operation and at every queue operation inside operations
+fn placed() -> RunOpts {
+    RunOpts { max_cycles: 0, max_steps: 0, park_in_stepped: true, no_flush: true, cyield: PLACED, park_replay: false, fresh_threads: false }
+}
+
+/// local steps for the final poll of an adapter: a local span, a local event, a local property
+fn final_poll_steps() -> Vec<Op> {
+    vec![
+        Op::LEnter { l: new_local_label(), np: 0, k0: 0 },
+        Op::Pop,
+        Op::LAddEvent { e: new_event(), np: 0, k0: 0 },
+        Op::LAddProps { n: 1, k0: new_keys(1) },
+    ]
+}
+
+pub fn all(prop: &str, cancelable: bool) -> Vec<Template> {
+    let c = cancelable;
+    let mut v: Vec<Template> = vec![];
+    let want = |names: &[&str]| names.contains(&prop);
+
+    if want(&["C01", "C08", "C03"]) {
+        // a thread finishes a span and exits at once: the collector may be anywhere, in particular
+        // between the failed pop and the abandonment check of that thread's queue
+        for (a, b, nm) in [(0usize, 1usize, "exit-after-last-push/root-first"), (1, 0, "exit-after-last-push/child-first")] {
+            v.push(tpl(nm, stepped(1, false), 40_000, move || {
+                let mut p = B::new(2, c);
+                let r = p.root(a);
+                let ch = p.child(b, r);
+                p.finish(b, ch);
+                p.exit(b);
+                p.finish(a, r);
+                p.done()
+            }));
+        }
+        v.push(tpl("root-finishes-and-thread-exits", stepped(1, false), 40_000, move || {
+            let mut p = B::new(2, c);
+            let r = p.root(1);
+            let ch = p.child(0, r);
+            p.finish(0, ch);
+            p.finish(1, r);
+            p.exit(1);
+            p.done()
+        }));
+    }
+    if want(&["C01", "C03", "C08", "C04"]) {
+        // a child finishes on B, then the root finishes on A: the collector may sit between the two
+        // queues in either drain order
+        for (a, b, nm) in [(0usize, 1usize, "child-on-later-queue-then-root"), (1, 0, "child-on-earlier-queue-then-root")] {
+            v.push(tpl(nm, stepped(2, false), 60_000, move || {
+                let mut p = B::new(2, c);
+                let r = p.root(a);
+                let ch = p.child(b, r);
+                p.finish(b, ch);
+                p.finish(a, r);
+                p.done()
+            }));
+        }
+        // root created on A, finished on B: start and commit travel through different queues
+        for (a, b, nm) in [(0usize, 1usize, "root-created-A-finished-B/A-first"), (1, 0, "root-created-A-finished-B/B-first")] {
+            v.push(tpl(nm, stepped(2, false), 60_000, move || {
+                let mut p = B::new(2, c);
+                let r = p.root(a);
+                p.finish(b, r);
+                p.done()
+            }));
+        }
+        v.push(tpl("children-on-two-other-threads", stepped(1, false), 60_000, move || {
+            let mut p = B::new(3, c);
+            let r = p.root(1);
+            let c1 = p.child(0, r);
+            let c2 = p.child(2, r);
+            p.finish(2, c2);
+            p.finish(0, c1);
+            p.finish(1, r);
+            p.done()
+        }));
+    }
+    if want(&["C04", "C08"]) {
+        // cancel on A, finish on B
+        for (a, b, nm) in [(0usize, 1usize, "cancel-on-A-finish-on-B/A-first"), (1, 0, "cancel-on-A-finish-on-B/B-first")] {
+            v.push(tpl(nm, stepped(2, false), 60_000, move || {
+                let mut p = B::new(2, c);
+                let r = p.root(a);
+                let ch = p.child(a, r);
+                p.finish(a, ch);
+                p.cancel(a, r);
+                p.finish(b, r);
+                p.done()
+            }));
+        }
+        // root created on C, cancelled on A, finished on B
+        v.push(tpl("start-cancel-finish-on-three-threads", stepped(2, false), 80_000, move || {
+            let mut p = B::new(3, c);
+            let r = p.root(2);
+            p.cancel(0, r);
+            p.finish(1, r);
+            p.done()
+        }));
+        // a cancelled trace shares a multi-parent span with a live trace
+        v.push(tpl("cancelled-trace-shares-span", stepped(2, false), 40_000, move || {
+            let mut p = B::new(2, c);
+            let r1 = p.root(0);
+            let r2 = p.root(1);
+            let sh = p.child_multi(1, &[r1, r2]);
+            p.finish(1, sh);
+            p.cancel(0, r1);
+            p.finish(0, r1);
+            p.finish(1, r2);
+            p.done()
+        }));
+        // cancel() without cancelable: attachments parked before and after must survive
+        v.push(tpl("cancel-between-attachments", stepped(3, true), 40_000, move || {
+            let mut p = B::new(1, c);
+            let r = p.root(0);
+            p.add_props(0, r);
+            p.cancel(0, r);
+            p.add_event(0, r);
+            p.finish(0, r);
+            p.done()
+        }));
+    }
+    if want(&["C04", "C09"]) {
+        // cancel + finish while the ring is full: both signals are parked, then replayed
+        let mut o = stepped(3, false);
+        o.park_replay = true;
+        o.park_in_stepped = true;
+        o.cyield = 32; // whole drains; stop only before the report
+        v.push(tpl("cancel-and-finish-with-full-ring", o, 4_000, move || {
+            let mut p = B::new(1, c);
+            let f = p.root(0);
+            let r = p.root(0);
+            let ch = p.child(0, r);
+            p.finish(0, ch);
+            p.fill(0, f, 10_300);
+            p.cancel(0, r);
+            p.finish(0, r);
+            // the next commands replay the parked ones
+            p.add_event(0, f);
+            p.add_event(0, f);
+            p.finish(0, f);
+            p.done()
+        }));
+    }
+    if want(&["C13"]) {
+        // fut.in_span(root): what the final poll records must reach the trace, wherever a cycle falls
+        for (nm, pending_first) in [("in_span(root)-ready-at-once", false), ("in_span(root)-pending-then-ready", true)] {
+            v.push(tpl(nm, placed(), 30_000, move || {
+                let mut p = B::new(2, c);
+                let r = p.root(0);
+                let a = new_adapter();
+                p.op(0, Op::ANew { a, kind: AKind::Future, span: Some(r), poll_name: None });
+                if pending_first {
+                    p.op(1, Op::ACall { a, method: AMethod::Poll, steps: vec![Op::LAddEvent { e: new_event(), np: 0, k0: 0 }], outcome: AOutcome::Pending });
+                }
+                p.op(0, Op::ACall { a, method: AMethod::Poll, steps: final_poll_steps(), outcome: AOutcome::Value });
+                p.op(0, Op::ADrop { a });
+                p.done()
+            }));
+        }
+        v.push(tpl("in_span(child)-dropped-before-completion", placed(), 30_000, move || {
+            let mut p = B::new(2, c);
+            let r = p.root(0);
+            let ch = p.child(0, r);
+            let a = new_adapter();
+            p.op(0, Op::ANew { a, kind: AKind::Future, span: Some(ch), poll_name: Some(0) });
+            p.op(1, Op::ACall { a, method: AMethod::Poll, steps: final_poll_steps(), outcome: AOutcome::Pending });
+            p.op(1, Op::ADrop { a });
+            p.finish(0, r);
+            p.done()
+        }));
+    }
+    if want(&["C14"]) {
+        v.push(tpl("stream.in_span(root)-ends", placed(), 30_000, move || {
+            let mut p = B::new(2, c);
+            let r = p.root(0);
+            let a = new_adapter();
+            p.op(0, Op::ANew { a, kind: AKind::Stream, span: Some(r), poll_name: None });
+            p.op(1, Op::ACall { a, method: AMethod::PollNext, steps: vec![Op::LAddEvent { e: new_event(), np: 0, k0: 0 }], outcome: AOutcome::Value });
+            p.op(0, Op::ACall { a, method: AMethod::PollNext, steps: final_poll_steps(), outcome: AOutcome::End });
+            p.op(0, Op::ADrop { a });
+            p.done()
+        }));
+        v.push(tpl("sink.in_span(root)-closes", placed(), 30_000, move || {
+            let mut p = B::new(2, c);
+            let r = p.root(0);
+            let a = new_adapter();
+            p.op(0, Op::ANew { a, kind: AKind::Sink, span: Some(r), poll_name: None });
+            p.op(1, Op::ACall { a, method: AMethod::StartSend, steps: vec![Op::LAddProps { n: 1, k0: new_keys(1) }], outcome: AOutcome::Value });
+            p.op(0, Op::ACall { a, method: AMethod::PollClose, steps: final_poll_steps(), outcome: AOutcome::Value });
+            p.op(0, Op::ADrop { a });
+            p.done()
+        }));
+    }
+    v
 }
